@@ -66,6 +66,12 @@ ASSUMPTIONS = [
     "around cryptojwt 1.11 pick_key (ES512 -> P-521, Ed448 first); the PAR add-on authenticates with the "
     "token-endpoint method when that is a secret/JWT method, else client_secret_basic",
     "the user is authenticated by NoAuthn; HTTP is an in-process dispatcher (status, body, content-type)",
+    "lifetime dimension (Model/InteropLifetime.v, C12_lifetime_*): the model's handler object is the one the "
+    "configuration made, before and after every mint (handler_stamp) - tied to the code by chk_lifetimes on every "
+    "sequence of flows driven on one real provider instance; visited usage rules: access-token rule empty (handler "
+    "lifetime) or with expires_in, provider-wide or per client; the refresh-token rule always names what it mints and "
+    "always states expires_in (provider-wide, or the client's own laid over it) - a rule that is NOT empty and states "
+    "no expires_in is outside the visited class (there the session record keeps expires_at = 0)",
 ]
 
 MODES = [None, "query", "fragment", "form_post"]
@@ -208,8 +214,297 @@ def one(x):
     return x
 
 
+def fill_record(rec, job, pair, obs):
+    """the record of one COMPLETED flow: artefacts, the provider's session record, every view (also after each
+    refresh round), and every statement about the expiry of the tokens (expiry_views)"""
+    cell = job["cell"]
+    rec["outcome"] = {"where": "ok", "stage": obs["stages"][-1], "detail": ""}
+    rec["stages"] = obs["stages"]
+    rec["advertised_scopes"] = obs.get("advertised_scopes")
+    rec["op_requested"] = scope_list((obs.get("op_grant") or {}).get("requested"))
+    rec["rp_requested"] = scope_list(obs.get("rp_scope"))
+    fin = obs["finalize"]
+    st = obs["rp_state"]
+    has_token = fin.get("token") is not None
+    rec["has_token"] = has_token
+    rec["at_from"], rec["idt_from"] = obs["access_token_from"], obs["id_token_from"]
+    # ---- artefacts
+    rec["delivery"] = obs["delivery"]
+    rec["delivered_to"] = obs["delivered_to"]
+    rec["delivered_keys"] = obs["delivered_keys"]
+    rec["rp_callbacks"] = obs["rp_callbacks"]
+    rec["rp_redirect_uri"] = st.get("redirect_uri")
+    rec["authz_query_keys"] = obs["authz_query_keys"]
+    rec["rp_use"] = {k: v for k, v in obs["rp_use"].items() if k in (
+        "token_endpoint_auth_method", "id_token_signed_response_alg", "id_token_encrypted_response_alg",
+        "id_token_encrypted_response_enc", "userinfo_signed_response_alg", "userinfo_encrypted_response_alg",
+        "userinfo_encrypted_response_enc", "response_types", "response_modes")}
+    kind, h, p = jose_shape(obs["raw_id_token"])
+    rec["id_token_shape"] = kind
+    rec["id_token_outer_header"] = h
+    rec["id_token_verified_alg"] = (obs.get("id_token_jws_header") or {}).get("alg")
+    rec["id_token_verified_jwe"] = obs.get("id_token_jwe_header")
+    if obs.get("userinfo_wire"):
+        ct, body = obs["userinfo_wire"]
+        k2, h2, _ = jose_shape(body)
+        rec["userinfo_wire"] = {"content_type": ct.split(";")[0].strip(), "shape": k2, "header": h2}
+    else:
+        rec["userinfo_wire"] = None
+    at = fin.get("token")
+    rec["access_token_shape"] = jose_shape(at)[0] if at else None
+    rtok = (obs.get("token_response") or {}).get("refresh_token")
+    rec["refresh_token_shape"] = jose_shape(rtok)[0] if rtok else None
+    # ---- the provider's session record
+    g = obs.get("op_grant") or {}
+    toks = obs.get("op_tokens") or []
+    at_rec = next((t for t in toks if t["class"] == "access_token" and t["value"] == at), None) if at else None
+    idt_rec = next((t for t in toks if t["class"] == "id_token" and t["value"] == obs["raw_id_token"]), None)
+    # idt_exp: the expiry the provider WROTE INTO the ID Token; idt_exp_recorded: what its session database holds
+    issued_exp = p.get("exp") if kind == "jws" else (fin.get("id_token") or {}).get("exp")
+    rec["session"] = {"client": g.get("client_id"), "sub": g.get("sub"), "scope": scope_list(g.get("scope")),
+                      "nonce": g.get("nonce"), "at_exp": at_rec["expires_at"] if at_rec else None,
+                      "idt_exp": issued_exp,
+                      "idt_exp_recorded": idt_rec["expires_at"] if idt_rec else None,
+                      "at_scope": scope_list(at_rec["scope"]) if at_rec else None,
+                      "user": g.get("user_id")}
+    tt = obs.get("token_times") or []
+    rec["now_op"], rec["now_rp"] = (tt[0] if tt else (job.get("t_start", NOW), job.get("t_start", NOW)))
+    # ---- views
+    views = {}
+    idt = fin.get("id_token") or {}
+    if fin.get("id_token") is not None:
+        views["id_token"] = {"client": one(idt.get("aud")), "sub": idt.get("sub"), "nonce": idt.get("nonce"),
+                             "idt_exp": idt.get("exp")}
+    # hashes in the ID Token that arrived in the authorization response, and what arrived with it
+    k0, h0, p0 = jose_shape(obs["delivered"].get("id_token"))
+    rec["front_id_token"] = ({"hashes": [h for h in ("c_hash", "at_hash") if h in (p0 or {})],
+                              "with": [a for a in ("code", "access_token") if a in obs["delivered"]],
+                              "shape": k0} if "id_token" in obs["delivered"] else None)
+    vidt = st.get("__verified_id_token") or {}
+    rp_sub = st.get("sub") or vidt.get("sub")
+    views["rp"] = {"client": obs["rp_client_id"], "sub": rp_sub, "scope": scope_list(st.get("scope")),
+                   "nonce": st.get("nonce"), "at_exp": st.get("__expires_at"), "idt_exp": vidt.get("exp")}
+    rec["rp_sub_bound"] = rp_sub in (pair.rp.get_context().cstate._map or {})
+    rec["rp_nonce_sent"] = obs.get("rp_nonce")
+    if has_token:
+        # the response that carried the access token: the token response, or the authorization response
+        tr = (obs.get("token_response") or {}) if rec["at_from"] == "token" else obs["delivered"]
+        views["token_response"] = {"scope": scope_list(tr.get("scope")),
+                                   "at_exp": (rec["now_op"] + int(tr["expires_in"])) if "expires_in" in tr else None}
+        ui = fin.get("userinfo") or {}
+        views["userinfo"] = {"sub": ui.get("sub")}
+        rec["userinfo_claims"] = sorted(ui.keys())
+        ir = obs.get("introspection")
+        if ir is not None:
+            views["introspection"] = {"client": ir.get("client_id"), "sub": ir.get("sub"),
+                                      "scope": scope_list(ir.get("scope")), "at_exp": ir.get("exp")}
+            rec["introspection_active"] = ir.get("active")
+        ks, hs, ps = jose_shape(at)
+        if ks == "jws":
+            views["jwt_access_token"] = {"client": ps.get("client_id"), "sub": ps.get("sub"),
+                                         "scope": scope_list(ps.get("scope")), "at_exp": ps.get("exp")}
+    views["delivered"] = {"scope": scope_list(obs["delivered"].get("scope")), "client": obs["delivered"].get("client_id")}
+    rec["views"] = views
+    # ---- refresh rounds: the same observation points, read again for the refreshed tokens
+    rounds = []
+    for rd in obs.get("refresh_rounds") or []:
+        tr, st2 = rd["token_response"], rd["rp_state"]
+        new_at, new_idt = tr.get("access_token"), tr.get("id_token")
+        toks2 = rd.get("op_tokens") or []
+        at2 = next((t for t in toks2 if t["class"] == "access_token" and t["value"] == new_at), None)
+        idt2 = next((t for t in toks2 if t["class"] == "id_token" and t["value"] == new_idt), None) if new_idt else None
+        g2 = rd.get("op_grant") or {}
+        k3, h3, p3 = jose_shape(new_idt)
+        vidt2 = st2.get("__verified_id_token") or {}
+        tt2 = rd.get("token_times") or []
+        n_op, n_rp = tt2[0] if tt2 else (None, None)
+        sess2 = {"client": g2.get("client_id"), "sub": g2.get("sub"), "scope": scope_list(g2.get("scope")),
+                 "nonce": g2.get("nonce"), "at_exp": at2["expires_at"] if at2 else None,
+                 "idt_exp": (p3.get("exp") if k3 == "jws" else vidt2.get("exp")) if new_idt else None,
+                 "idt_exp_recorded": idt2["expires_at"] if idt2 else None,
+                 "at_scope": scope_list(at2["scope"]) if at2 else None, "user": g.get("user_id")}
+        v2 = {"token_response": {"scope": scope_list(tr.get("scope")),
+                                 "at_exp": (n_op + int(tr["expires_in"])) if ("expires_in" in tr and n_op is not None) else None},
+              "rp": {"client": obs["rp_client_id"], "sub": st2.get("sub") or vidt2.get("sub"),
+                     "scope": scope_list(st2.get("scope")), "nonce": st2.get("nonce"),
+                     "at_exp": st2.get("__expires_at"), "idt_exp": vidt2.get("exp") if new_idt else None}}
+        if new_idt:
+            v2["id_token"] = {"client": one(vidt2.get("aud")), "sub": vidt2.get("sub"), "nonce": vidt2.get("nonce"),
+                              "idt_exp": vidt2.get("exp")}
+        if "userinfo" in rd:
+            v2["userinfo"] = {"sub": rd["userinfo"].get("sub")}
+        ir2 = rd.get("introspection")
+        if ir2 is not None:
+            v2["introspection"] = {"client": ir2.get("client_id"), "sub": ir2.get("sub"),
+                                   "scope": scope_list(ir2.get("scope")), "at_exp": ir2.get("exp")}
+        k4, h4, p4 = jose_shape(new_at)
+        if k4 == "jws":
+            v2["jwt_access_token"] = {"client": p4.get("client_id"), "sub": p4.get("sub"),
+                                      "scope": scope_list(p4.get("scope")), "at_exp": p4.get("exp")}
+        rounds.append({"round": rd["round"], "cell": cell, "scope": job["scope"], "has_token": new_at is not None,
+                       "at_from": "token" if new_at else None, "idt_from": "token" if new_idt else None,
+                       "session": sess2, "views": v2, "now_op": n_op, "now_rp": n_rp,
+                       "rp_holds_new_token": st2.get("access_token") == new_at,
+                       "asked_scope": scope_list(rd.get("asked_scope")),
+                       "request_scope": scope_list(rd.get("request_scope")),
+                       "introspection_active": (ir2 or {}).get("active"),
+                       "access_token_shape": k4, "userinfo_error": rd.get("userinfo_error"),
+                       "refresh_token_shape": jose_shape(tr.get("refresh_token"))[0] if tr.get("refresh_token") else None})
+    rec["refresh_rounds"] = rounds
+    rec["expiry"] = expiry_views(rec, obs)
+    return rec
+
+
+# ---- every statement about the EXPIRY of the tokens of one flow, read where each half keeps / shows it
+def _iat_exp(d):
+    if not isinstance(d, dict) or d.get("exp") is None:
+        return None
+    return [d.get("iat"), d.get("exp")]
+
+
+def _session_times(tokens, cls, value):
+    t = next((t for t in tokens or [] if t["class"] == cls and t["value"] == value), None) if value else None
+    return [t["issued_at"], t["expires_at"]] if t else None
+
+
+def _jwt_times(tok):
+    k, _, p = jose_shape(tok)
+    return _iat_exp(p) if k == "jws" else None
+
+
+def expiry_views(rec, obs):
+    """one entry per minting event of the flow (the flow itself, then every refresh round): the provider's and the
+    relying party's clocks, and what each view says about the access token and the refresh token minted then:
+    expires_in of the response, the relying party's __expires_at, (issued_at, expires_at) of the provider's session
+    record, (iat, exp) INSIDE a JWT-formatted token, (iat, exp) reported by introspection"""
+    out = []
+    at = (obs.get("finalize") or {}).get("token")
+    if not at:
+        return out
+    from_token = rec["at_from"] == "token"
+    tr = (obs.get("token_response") or {}) if from_token else obs["delivered"]
+    rft = (obs.get("token_response") or {}).get("refresh_token") if from_token else None
+    toks = obs.get("op_tokens") or []
+    out.append({"tag": "", "now_op": rec["now_op"], "now_rp": rec["now_rp"], "has_rf": bool(rft),
+                "rf_asked": obs.get("introspection_refresh") is not None,
+                "response": int(tr["expires_in"]) if tr.get("expires_in") is not None else None,
+                "rp": obs["rp_state"].get("__expires_at"),
+                "session": _session_times(toks, "access_token", at), "jwt": _jwt_times(at),
+                "introspection": _iat_exp(obs.get("introspection")),
+                "rf_session": _session_times(toks, "refresh_token", rft), "rf_jwt": _jwt_times(rft) if rft else None,
+                "rf_introspection": _iat_exp(obs.get("introspection_refresh"))})
+    for rd in obs.get("refresh_rounds") or []:
+        tr2 = rd.get("token_response") or {}
+        at2, rf2 = tr2.get("access_token"), tr2.get("refresh_token")
+        tt = rd.get("token_times") or []
+        if not at2 or not tt:
+            continue
+        toks2 = rd.get("op_tokens") or []
+        out.append({"tag": ":refresh%d" % rd["round"], "now_op": tt[0][0], "now_rp": tt[0][1], "has_rf": bool(rf2),
+                    "rf_asked": False,
+                    "response": int(tr2["expires_in"]) if tr2.get("expires_in") is not None else None,
+                    "rp": rd["rp_state"].get("__expires_at"),
+                    "session": _session_times(toks2, "access_token", at2), "jwt": _jwt_times(at2),
+                    "introspection": _iat_exp(rd.get("introspection")),
+                    "rf_session": _session_times(toks2, "refresh_token", rf2), "rf_jwt": _jwt_times(rf2) if rf2 else None,
+                    "rf_introspection": None})
+    return out
+
+
+# lifetimes of the provider every ordinary flow runs on (rp_op_c12.AUTHZ over the srv.op_conf handler defaults)
+def default_life_cfg():
+    import rp_op_c12 as B
+    ur = B.AUTHZ["kwargs"]["grant_config"]["usage_rules"]
+    return {"handler": {"at": 3600, "rf": 86400},
+            "provider": {"at": ur["access_token"].get("expires_in"), "rf": ur["refresh_token"].get("expires_in")},
+            "client": {"at": None, "rf": None}, "client_id": B.CLIENT_ID}
+
+
+def instance_authz(rules):
+    """the provider's authz configuration with provider-wide usage rules.  Access tokens: the rule states a lifetime
+    (rules["at"] = seconds) or is empty (None: the token handler's lifetime applies).  Refresh tokens: the rule says
+    what a refresh token may mint (as rp_op_c12.AUTHZ: access token, refresh token, ID Token) and always states a
+    lifetime (rules["rf"]) - see ASSUMPTIONS for rules that are not empty and state none."""
+    return {"class": "idpyoidc.server.authz.AuthzHandling", "kwargs": {"grant_config": {"usage_rules": {
+        "authorization_code": {"supports_minting": ["access_token", "refresh_token", "id_token"], "max_usage": 1,
+                               "expires_in": 300},
+        "access_token": {} if rules.get("at") is None else {"expires_in": rules["at"]},
+        "refresh_token": {"supports_minting": ["access_token", "refresh_token", "id_token"], "expires_in": rules["rf"]}},
+        "expires_in": 43200}}}
+
+
+def client_usage_rules(rules):
+    out = {}
+    if rules.get("at") is not None:
+        out["access_token"] = {"expires_in": rules["at"]}
+    if rules.get("rf") is not None:
+        out["refresh_token"] = {"expires_in": rules["rf"]}
+    return out or None
+
+
+def run_instance_job(job):
+    """ONE provider instance, several clients registered with it (each with its own relying party and, perhaps, its
+    own token_usage_rules), and a SEQUENCE of complete flows of these clients driven one after the other on that
+    instance.  Returns one record per flow (the records of ordinary flows, plus the instance and the position)."""
+    import logging
+    import warnings
+    logging.disable(logging.CRITICAL)
+    warnings.simplefilter("ignore")
+    import rp_op_c12 as B
+    import srv
+    inst = job["instance"]
+    clock = srv.Clock(NOW).install()
+    recs = []
+    try:
+        pairs, first = [], None
+        try:
+            for cl in inst["clients"]:
+                pr = B.Pair(cl["cell"], clock=clock, client_id=cl["id"], share=first,
+                            token_usage_rules=client_usage_rules(cl["rules"]), authz=instance_authz(inst["provider"]),
+                            lifetimes={"token": inst["handler"]["at"], "refresh": inst["handler"]["rf"]})
+                first = first or pr
+                pairs.append(pr)
+        except Exception as e:
+            return [{"cell": inst["clients"][0]["cell"], "scope": [], "claims": None, "user": "", "latency": 0,
+                     "kind": job.get("kind", ""), "instance": inst, "position": 0,
+                     "outcome": {"where": "harness", "stage": "harness", "detail": "%s: %s" % (type(e).__name__, str(e)[:400])}}]
+        started = set()
+        for pos, fl in enumerate(inst["sequence"]):
+            cl = inst["clients"][fl["client"]]
+            pair = pairs[fl["client"]]
+            pair.latency = fl.get("latency", 0)
+            clock.tick(fl.get("gap", 0))
+            fjob = {"cell": cl["cell"], "scope": fl["scope"], "claims": fl.get("claims"), "user": fl["user"],
+                    "latency": fl.get("latency", 0), "kind": job.get("kind", ""), "t_start": clock.now}
+            rec = {"cell": cl["cell"], "scope": fl["scope"], "claims": fl.get("claims"), "user": fl["user"],
+                   "latency": fl.get("latency", 0), "kind": job.get("kind", ""), "allowed": None, "refresh_scopes": None,
+                   "instance": inst, "position": pos, "t_start": clock.now,
+                   "life_cfg": {"handler": inst["handler"], "provider": inst["provider"], "client": cl["rules"],
+                                "client_id": cl["id"]}}
+            t0 = time.time()
+            try:
+                obs = B.run_flow(pair, fl["scope"], claims=fl.get("claims"), user=fl["user"],
+                                 setup=fl["client"] not in started, introspect_refresh=True)
+                started.add(fl["client"])
+                fill_record(rec, fjob, pair, obs)
+            except B.FlowFailure as f:
+                started.add(fl["client"])
+                rec["outcome"] = {"where": f.where, "stage": f.stage, "detail": f.detail[:500]}
+            except Exception as e:
+                rec["outcome"] = {"where": "harness", "stage": "harness", "detail": "%s: %s" % (type(e).__name__, str(e)[:400])}
+            rec["wall"] = round(time.time() - t0, 3)
+            recs.append(rec)
+        return recs
+    finally:
+        clock.uninstall()
+        B.clean_requests_dir()
+
+
 def run_job(job):
-    """job: {cell, scope, claims, user, latency}.  Returns a compact JSON-able record."""
+    """job: {cell, scope, claims, user, latency}.  Returns a compact JSON-able record (an instance job: a list of
+    records, one per flow of its sequence)."""
+    if "instance" in job:
+        return run_instance_job(job)
     import logging
     import warnings
     logging.disable(logging.CRITICAL)
@@ -233,139 +528,7 @@ def run_job(job):
         except Exception as e:    # the harness itself
             rec["outcome"] = {"where": "harness", "stage": "harness", "detail": "%s: %s" % (type(e).__name__, str(e)[:400])}
             return rec
-        rec["outcome"] = {"where": "ok", "stage": obs["stages"][-1], "detail": ""}
-        rec["stages"] = obs["stages"]
-        rec["advertised_scopes"] = obs.get("advertised_scopes")
-        rec["op_requested"] = scope_list((obs.get("op_grant") or {}).get("requested"))
-        rec["rp_requested"] = scope_list(obs.get("rp_scope"))
-        fin = obs["finalize"]
-        st = obs["rp_state"]
-        has_token = fin.get("token") is not None
-        rec["has_token"] = has_token
-        rec["at_from"], rec["idt_from"] = obs["access_token_from"], obs["id_token_from"]
-        # ---- artefacts
-        rec["delivery"] = obs["delivery"]
-        rec["delivered_to"] = obs["delivered_to"]
-        rec["delivered_keys"] = obs["delivered_keys"]
-        rec["rp_callbacks"] = obs["rp_callbacks"]
-        rec["rp_redirect_uri"] = st.get("redirect_uri")
-        rec["authz_query_keys"] = obs["authz_query_keys"]
-        rec["rp_use"] = {k: v for k, v in obs["rp_use"].items() if k in (
-            "token_endpoint_auth_method", "id_token_signed_response_alg", "id_token_encrypted_response_alg",
-            "id_token_encrypted_response_enc", "userinfo_signed_response_alg", "userinfo_encrypted_response_alg",
-            "userinfo_encrypted_response_enc", "response_types", "response_modes")}
-        kind, h, p = jose_shape(obs["raw_id_token"])
-        rec["id_token_shape"] = kind
-        rec["id_token_outer_header"] = h
-        rec["id_token_verified_alg"] = (obs.get("id_token_jws_header") or {}).get("alg")
-        rec["id_token_verified_jwe"] = obs.get("id_token_jwe_header")
-        if obs.get("userinfo_wire"):
-            ct, body = obs["userinfo_wire"]
-            k2, h2, _ = jose_shape(body)
-            rec["userinfo_wire"] = {"content_type": ct.split(";")[0].strip(), "shape": k2, "header": h2}
-        else:
-            rec["userinfo_wire"] = None
-        at = fin.get("token")
-        rec["access_token_shape"] = jose_shape(at)[0] if at else None
-        rtok = (obs.get("token_response") or {}).get("refresh_token")
-        rec["refresh_token_shape"] = jose_shape(rtok)[0] if rtok else None
-        # ---- the provider's session record
-        g = obs.get("op_grant") or {}
-        toks = obs.get("op_tokens") or []
-        at_rec = next((t for t in toks if t["class"] == "access_token" and t["value"] == at), None) if at else None
-        idt_rec = next((t for t in toks if t["class"] == "id_token" and t["value"] == obs["raw_id_token"]), None)
-        # idt_exp: the expiry the provider WROTE INTO the ID Token; idt_exp_recorded: what its session database holds
-        issued_exp = p.get("exp") if kind == "jws" else (fin.get("id_token") or {}).get("exp")
-        rec["session"] = {"client": g.get("client_id"), "sub": g.get("sub"), "scope": scope_list(g.get("scope")),
-                          "nonce": g.get("nonce"), "at_exp": at_rec["expires_at"] if at_rec else None,
-                          "idt_exp": issued_exp,
-                          "idt_exp_recorded": idt_rec["expires_at"] if idt_rec else None,
-                          "at_scope": scope_list(at_rec["scope"]) if at_rec else None,
-                          "user": g.get("user_id")}
-        tt = obs.get("token_times") or []
-        rec["now_op"], rec["now_rp"] = (tt[0] if tt else (NOW, NOW))
-        # ---- views
-        views = {}
-        idt = fin.get("id_token") or {}
-        if fin.get("id_token") is not None:
-            views["id_token"] = {"client": one(idt.get("aud")), "sub": idt.get("sub"), "nonce": idt.get("nonce"),
-                                 "idt_exp": idt.get("exp")}
-        # hashes in the ID Token that arrived in the authorization response, and what arrived with it
-        k0, h0, p0 = jose_shape(obs["delivered"].get("id_token"))
-        rec["front_id_token"] = ({"hashes": [h for h in ("c_hash", "at_hash") if h in (p0 or {})],
-                                  "with": [a for a in ("code", "access_token") if a in obs["delivered"]],
-                                  "shape": k0} if "id_token" in obs["delivered"] else None)
-        vidt = st.get("__verified_id_token") or {}
-        rp_sub = st.get("sub") or vidt.get("sub")
-        views["rp"] = {"client": obs["rp_client_id"], "sub": rp_sub, "scope": scope_list(st.get("scope")),
-                       "nonce": st.get("nonce"), "at_exp": st.get("__expires_at"), "idt_exp": vidt.get("exp")}
-        rec["rp_sub_bound"] = rp_sub in (pair.rp.get_context().cstate._map or {})
-        rec["rp_nonce_sent"] = obs.get("rp_nonce")
-        if has_token:
-            # the response that carried the access token: the token response, or the authorization response
-            tr = (obs.get("token_response") or {}) if rec["at_from"] == "token" else obs["delivered"]
-            views["token_response"] = {"scope": scope_list(tr.get("scope")),
-                                       "at_exp": (rec["now_op"] + int(tr["expires_in"])) if "expires_in" in tr else None}
-            ui = fin.get("userinfo") or {}
-            views["userinfo"] = {"sub": ui.get("sub")}
-            rec["userinfo_claims"] = sorted(ui.keys())
-            ir = obs.get("introspection")
-            if ir is not None:
-                views["introspection"] = {"client": ir.get("client_id"), "sub": ir.get("sub"),
-                                          "scope": scope_list(ir.get("scope")), "at_exp": ir.get("exp")}
-                rec["introspection_active"] = ir.get("active")
-            ks, hs, ps = jose_shape(at)
-            if ks == "jws":
-                views["jwt_access_token"] = {"client": ps.get("client_id"), "sub": ps.get("sub"),
-                                             "scope": scope_list(ps.get("scope")), "at_exp": ps.get("exp")}
-        views["delivered"] = {"scope": scope_list(obs["delivered"].get("scope")), "client": obs["delivered"].get("client_id")}
-        rec["views"] = views
-        # ---- refresh rounds: the same observation points, read again for the refreshed tokens
-        rounds = []
-        for rd in obs.get("refresh_rounds") or []:
-            tr, st2 = rd["token_response"], rd["rp_state"]
-            new_at, new_idt = tr.get("access_token"), tr.get("id_token")
-            toks2 = rd.get("op_tokens") or []
-            at2 = next((t for t in toks2 if t["class"] == "access_token" and t["value"] == new_at), None)
-            idt2 = next((t for t in toks2 if t["class"] == "id_token" and t["value"] == new_idt), None) if new_idt else None
-            g2 = rd.get("op_grant") or {}
-            k3, h3, p3 = jose_shape(new_idt)
-            vidt2 = st2.get("__verified_id_token") or {}
-            tt2 = rd.get("token_times") or []
-            n_op, n_rp = tt2[0] if tt2 else (None, None)
-            sess2 = {"client": g2.get("client_id"), "sub": g2.get("sub"), "scope": scope_list(g2.get("scope")),
-                     "nonce": g2.get("nonce"), "at_exp": at2["expires_at"] if at2 else None,
-                     "idt_exp": (p3.get("exp") if k3 == "jws" else vidt2.get("exp")) if new_idt else None,
-                     "idt_exp_recorded": idt2["expires_at"] if idt2 else None,
-                     "at_scope": scope_list(at2["scope"]) if at2 else None, "user": g.get("user_id")}
-            v2 = {"token_response": {"scope": scope_list(tr.get("scope")),
-                                     "at_exp": (n_op + int(tr["expires_in"])) if ("expires_in" in tr and n_op is not None) else None},
-                  "rp": {"client": obs["rp_client_id"], "sub": st2.get("sub") or vidt2.get("sub"),
-                         "scope": scope_list(st2.get("scope")), "nonce": st2.get("nonce"),
-                         "at_exp": st2.get("__expires_at"), "idt_exp": vidt2.get("exp") if new_idt else None}}
-            if new_idt:
-                v2["id_token"] = {"client": one(vidt2.get("aud")), "sub": vidt2.get("sub"), "nonce": vidt2.get("nonce"),
-                                  "idt_exp": vidt2.get("exp")}
-            if "userinfo" in rd:
-                v2["userinfo"] = {"sub": rd["userinfo"].get("sub")}
-            ir2 = rd.get("introspection")
-            if ir2 is not None:
-                v2["introspection"] = {"client": ir2.get("client_id"), "sub": ir2.get("sub"),
-                                       "scope": scope_list(ir2.get("scope")), "at_exp": ir2.get("exp")}
-            k4, h4, p4 = jose_shape(new_at)
-            if k4 == "jws":
-                v2["jwt_access_token"] = {"client": p4.get("client_id"), "sub": p4.get("sub"),
-                                          "scope": scope_list(p4.get("scope")), "at_exp": p4.get("exp")}
-            rounds.append({"round": rd["round"], "cell": cell, "scope": job["scope"], "has_token": new_at is not None,
-                           "at_from": "token" if new_at else None, "idt_from": "token" if new_idt else None,
-                           "session": sess2, "views": v2, "now_op": n_op, "now_rp": n_rp,
-                           "rp_holds_new_token": st2.get("access_token") == new_at,
-                           "asked_scope": scope_list(rd.get("asked_scope")),
-                           "request_scope": scope_list(rd.get("request_scope")),
-                           "introspection_active": (ir2 or {}).get("active"),
-                           "access_token_shape": k4, "userinfo_error": rd.get("userinfo_error"),
-                           "refresh_token_shape": jose_shape(tr.get("refresh_token"))[0] if tr.get("refresh_token") else None})
-        rec["refresh_rounds"] = rounds
+        fill_record(rec, job, pair, obs)
         return rec
     finally:
         rec["wall"] = round(time.time() - t0, 3)
@@ -465,6 +628,39 @@ def views_case_ok(rec):
             and rec.get("at_from") in SRC and rec.get("idt_from") in SRC
             and (not has_idt or (isinstance(s.get("idt_exp"), int) and isinstance(s.get("idt_exp_recorded"), int)))
             and (not rec["has_token"] or isinstance(s.get("at_exp"), int)))
+
+
+def coq_zz_opt(x):
+    if x is None or x[0] is None or x[1] is None:
+        return "(@None (Z * Z))"
+    return "(Some (%s, %s))" % (coq_z(x[0]), coq_z(x[1]))
+
+
+def coq_life_event(rec, ev):
+    cfg = rec.get("life_cfg") or default_life_cfg()
+    c = rec["cell"]
+
+    def zo(x):
+        return coq_opt(x, coq_z, "Z")
+    e = "(mkEvent (mkClientLife %s %s %s) %s %s %s %s %s %s)" % (
+        coq_str(cfg["client_id"]), zo(cfg["client"].get("at")), zo(cfg["client"].get("rf")), coq_z(ev["now_op"]),
+        coq_z(ev["now_rp"]), coq_bool(c["at_jwt"]), coq_bool(c["rf_jwt"]), coq_bool(ev["has_rf"]), coq_bool(ev["rf_asked"]))
+    v = "(mkLviews %s %s %s %s %s %s %s %s)" % (
+        zo(ev["response"]), zo(ev["rp"]), coq_zz_opt(ev["session"]), coq_zz_opt(ev["jwt"]), coq_zz_opt(ev["introspection"]),
+        coq_zz_opt(ev["rf_session"]), coq_zz_opt(ev["rf_jwt"]), coq_zz_opt(ev["rf_introspection"]))
+    return "(%s, %s)" % (e, v)
+
+
+def coq_life_case(recs):
+    """the flows driven, in order, on ONE provider instance (an ordinary flow: the only one on its instance)"""
+    cfg = recs[0].get("life_cfg") or default_life_cfg()
+
+    def zo(x):
+        return coq_opt(x, coq_z, "Z")
+    p = "(mkProvLife %s %s %s %s)" % (coq_z(cfg["handler"]["at"]), coq_z(cfg["handler"]["rf"]),
+                                      zo(cfg["provider"].get("at")), zo(cfg["provider"].get("rf")))
+    evs = [coq_life_event(r, ev) for r in recs for ev in (r.get("expiry") or [])]
+    return "(%s, %s)" % (p, coq_list(evs, "(event * lviews)"))
 
 
 # ------------------------------------------------------------------ the oracle (property text; no model)
@@ -690,6 +886,68 @@ def refresh_oracle(ctx, rec):
             compare_views(ctx, dict(rr, cell=c, scope=rec["scope"]), tag)
 
 
+def expected_lifetime(cfg, cls):
+    """the lifetime the CONFIGURATION gives this client's tokens of a class: the client's own usage rule, else the
+    provider-wide usage rule, else the lifetime of the token handler"""
+    for src in ("client", "provider", "handler"):
+        v = (cfg.get(src) or {}).get(cls)
+        if v is not None:
+            return v
+    return None
+
+
+def lifetime_oracle(ctx, rec):
+    """expiry, view by view (property text: the expiry seen by the relying party equals the one recorded in the
+    provider's session, stated in the token response, CONTAINED IN THE JWT and reported by introspection): for the
+    flow and for every refresh round, the lifetime each view states for the access token (and for the refresh token)
+    is the same number, every view that states when the token was issued states the same instant, and the number is
+    the one the configuration gives THIS client - whatever the provider instance did before for anybody else"""
+    c = rec["cell"]
+    cfg = rec.get("life_cfg") or default_life_cfg()
+    pos = "" if rec.get("position") is None else " (flow %d of the sequence on this provider instance, client %s)" % (
+        rec["position"] + 1, cfg.get("client_id"))
+    for ev in rec.get("expiry") or []:
+        tag = ev["tag"]
+
+        def span(x):
+            return None if x is None or x[0] is None or x[1] is None else x[1] - x[0]
+        at = {"token_response": ev["response"], "rp": (ev["rp"] - ev["now_rp"]) if ev["rp"] is not None else None,
+              "op_session": span(ev["session"]), "jwt_access_token": span(ev["jwt"]),
+              "introspection": span(ev["introspection"])}
+        rf = {"op_session": span(ev["rf_session"]), "jwt_refresh_token": span(ev["rf_jwt"]),
+              "introspection": span(ev["rf_introspection"])}
+        need = ["token_response", "rp", "op_session", "introspection"] + (["jwt_access_token"] if c["at_jwt"] else [])
+        for n in need:
+            if at[n] is None:
+                ctx.violation("expiry-view-missing" + tag, "%s states no expiry of the access token%s" % (n, pos), rec)
+        if ev["has_rf"]:
+            for n in ["op_session"] + (["jwt_refresh_token"] if c["rf_jwt"] else []) + (["introspection"] if ev["rf_asked"] else []):
+                if rf[n] is None:
+                    ctx.violation("expiry-view-missing" + tag, "%s states no expiry of the refresh token%s" % (n, pos), rec)
+        for what, views, cls, key in (("access token", at, "at", "views:lifetime"), ("refresh token", rf, "rf", "views:refresh-lifetime")):
+            names = sorted(n for n in views if views[n] is not None)
+            for i, a in enumerate(names):
+                for b in names[i + 1:]:
+                    if views[a] != views[b]:
+                        ctx.violation(key + tag, "lifetime of the %s%s: %s says %r s, %s says %r s%s; configuration %s" % (
+                            what, tag, a, views[a], b, views[b], pos, json.dumps(cfg, default=str)), rec)
+            want = expected_lifetime(cfg, cls)
+            for n in names:
+                if want is not None and views[n] != want:
+                    ctx.violation("lifetime-config" + tag, "lifetime of the %s%s: %s says %r s, the configuration gives this "
+                                  "client %r s%s; configuration %s" % (what, tag, n, views[n], want, pos,
+                                                                      json.dumps(cfg, default=str)), rec)
+        starts = {n: v[0] for n, v in (("op_session", ev["session"]), ("jwt_access_token", ev["jwt"]),
+                                       ("introspection", ev["introspection"]), ("op_session:refresh_token", ev["rf_session"]),
+                                       ("jwt_refresh_token", ev["rf_jwt"]), ("introspection:refresh_token", ev["rf_introspection"]))
+                  if v is not None and v[0] is not None}
+        for n, v in sorted(starts.items()):
+            if v != ev["now_op"]:
+                ctx.violation("views:issued-at" + tag, "%s says the token was issued at %r, the provider's clock was %r%s" % (
+                    n, v, ev["now_op"], pos), rec)
+        ctx.count("expiry-events")
+
+
 def oracle(ctx, rec, T):
     c = rec["cell"]
     out = rec["outcome"]
@@ -783,6 +1041,7 @@ def oracle(ctx, rec, T):
             ctx.violation("introspection-inactive", "the access token just issued is not reported active", rec)
     # ---- views agree, pairwise, field by field
     compare_views(ctx, rec, "")
+    lifetime_oracle(ctx, rec)
     scope_oracle(ctx, rec)
     s = rec["session"]
     # required views are present
@@ -1106,6 +1365,61 @@ def refresh_cells(rng, T):
     return jobs
 
 
+SEQUENCE_PATTERNS = [("short-then-default", ["short", "default"]), ("default-then-short", ["default", "short"]),
+                     ("default-short-default", ["default", "short", "default"]),
+                     ("interleaved", ["short", "default", "short", "default"]),
+                     ("long-then-default", ["long", "default"]),
+                     ("three-clients", ["default", "refresh", "short", "default", "refresh"])]
+
+
+def instance_jobs(rng, T, rounds=1):
+    """the lifetime dimension: ONE provider instance x {opaque, JWT} access token x {opaque, JWT} refresh token x
+    provider-wide usage rules that state a lifetime or none (handler lifetime) x clients with their own
+    token_usage_rules (shorter / longer access-token lifetime, own refresh-token lifetime, both) and clients without
+    x SEQUENCES of complete flows of these clients on the instance: short client first then default, the other order,
+    default - short - default, interleaved, long first, three clients; every flow with its refresh rounds"""
+    jobs = []
+    rts = rr(rng, ["code", "code id_token", "code", "code token", "code", "id_token token", "code id_token token"])
+    auths = rr(rng, ["client_secret_basic", "client_secret_post", "client_secret_jwt", "private_key_jwt"])
+    trs = rr(rng, ["plain", "request", "plain"])
+    sigs = rr(rng, ["RS256", "ES256", "PS256"])
+    prov = rr(rng, [{"at": None, "rf": 3600}, {"at": None, "rf": 7200}, {"at": 600, "rf": 3600}, {"at": None, "rf": 14400},
+                    {"at": 900, "rf": 7200}])
+    for _ in range(rounds):
+        for at_jwt in (True, False):
+            for rf_jwt in (True, False):
+                for name, roles in SEQUENCE_PATTERNS:
+                    handler = {"at": rng.choice([3600, 1800]), "rf": rng.choice([86400, 14400])}
+                    provider = dict(prov())
+                    rules = {"default": {"at": None, "rf": None},
+                             "short": {"at": rng.choice([90, 120, 300]), "rf": rng.choice([None, 1200])},
+                             "long": {"at": rng.choice([7200, 10000]), "rf": rng.choice([None, 100000])},
+                             "refresh": {"at": None, "rf": rng.choice([900, 1500])}}
+                    names = []
+                    for r in roles:
+                        if r not in names:
+                            names.append(r)
+                    clients = []
+                    for i, r in enumerate(names):
+                        # the first flow of every sequence redeems a code (refresh token, refresh rounds)
+                        rt = "code" if i == 0 and rng.random() < 0.5 else rts()
+                        clients.append({"id": "c12-%s" % "abc"[i], "role": r, "rules": rules[r],
+                                        "cell": base_cell(rt=rt, auth=auths(), transport=trs(), idt_sig=sigs(),
+                                                          at_jwt=at_jwt, rf_jwt=rf_jwt, rp_all_rts=rng.random() < 0.3)})
+                    seq = []
+                    for r in roles:
+                        ci = names.index(r)
+                        redeems = expects(clients[ci]["cell"]["rt"])[2]
+                        extra = [x for x in SCOPES if x != "offline_access" and rng.random() < 0.4]
+                        seq.append({"client": ci, "scope": ["openid"] + extra + (["offline_access"] if redeems or rng.random() < 0.3 else []),
+                                    "user": rng.choice(USERS), "latency": rng.choice([0, 0, 2, 7]),
+                                    "gap": rng.choice([1, 50, 400, 5000]), "claims": None})
+                    jobs.append({"instance": {"label": "%s-%d" % (name, len(jobs)), "handler": handler, "provider": provider,
+                                              "clients": clients, "sequence": seq},
+                                 "kind": "instance:" + name})
+    return jobs
+
+
 def fixed_witnesses():
     """One fully fixed flow per entry of known_findings.txt (nothing drawn from the seed): the KNOWN-FINDING lines
     are printed on every run, for every VERIF_SEED; these are the C12_refuted_* cells of Props/C12.v."""
@@ -1171,10 +1485,15 @@ def thorough_jobs(rng, T):
 
 # ------------------------------------------------------------------ running
 def execute(jobs, workers):
+    def flat(rs):
+        out = []
+        for r in rs:
+            out.extend(r if isinstance(r, list) else [r])      # an instance job returns one record per flow
+        return out
     if workers <= 1:
-        return [run_job(j) for j in jobs]
+        return flat(run_job(j) for j in jobs)
     with ProcessPoolExecutor(max_workers=workers) as ex:
-        return list(ex.map(run_job, jobs, chunksize=4))
+        return flat(ex.map(run_job, jobs, chunksize=4))
 
 
 def prepare_keys():
@@ -1185,13 +1504,31 @@ def prepare_keys():
 
 def evaluate(ctx, recs, T):
     flow_cases, view_cases, refresh_cases, grant_cases, scoped_cases = [], [], [], [], []
+    # the flows that ran on ONE provider instance, in the order they ran (an ordinary flow has an instance of its own)
+    instances = {}
+    for n, rec in enumerate(recs):
+        key = ("seq", json.dumps(rec["instance"], sort_keys=True, default=str)) if rec.get("instance") else ("one", n)
+        instances.setdefault(key, []).append(rec)
+    life_cases = []
+    for key, rs in instances.items():
+        rs = sorted(rs, key=lambda r: r.get("position") or 0)
+        if any(r.get("expiry") for r in rs):
+            life_cases.append((coq_life_case(rs), {
+                "cell": rs[0]["cell"], "instance": rs[0].get("instance"), "kind": rs[0].get("kind"), "scope": rs[0]["scope"],
+                "claims": rs[0]["claims"], "user": rs[0]["user"], "latency": rs[0]["latency"], "allowed": rs[0].get("allowed"),
+                "refresh_scopes": rs[0].get("refresh_scopes"),
+                "life_cfg": [r.get("life_cfg") or default_life_cfg() for r in rs], "expiry": [r.get("expiry") for r in rs]}))
+        if key[0] == "seq":
+            ctx.count("instance-sequences")
+            ctx.count("instance-sequence-flows", len(rs))
     for rec in recs:
         c = rec["cell"]
         out = rec["outcome"]
         small = {k: v for k, v in rec.items() if k not in ("views", "session", "rp_callbacks", "rp_use")}
         ctx.case_seen({"cell": c, "scope": rec["scope"], "claims": rec["claims"], "user": rec["user"],
                        "latency": rec["latency"], "outcome": out["where"], "allowed": rec.get("allowed"),
-                       "refresh_scopes": rec.get("refresh_scopes")}, nontrivial=out["where"] not in ("rp_init", "harness"))
+                       "refresh_scopes": rec.get("refresh_scopes"), "instance": rec.get("instance"),
+                       "position": rec.get("position")}, nontrivial=out["where"] not in ("rp_init", "harness"))
         ctx.count("kind:" + rec["kind"].split(":")[0])
         ctx.count("outcome:" + out["where"])
         ctx.count("rt:" + c["rt"])
@@ -1260,6 +1597,8 @@ def evaluate(ctx, recs, T):
     ctx.coq_check_cases(imports, "option (list pystr) * list pystr * list pystr * session * (Z * Z * Z) * option (list pystr) "
                         "* views_case", "chk_refresh_scoped", scoped_cases, shard=150, label="refresh_scoped",
                         diag="diag_refresh_scoped")
+    ctx.coq_check_cases(imports + ["Model.InteropLifetime"], "prov_life * list (event * lviews)", "chk_lifetimes",
+                        life_cases, shard=150, label="lifetimes", diag="diag_lifetimes")
     ctx.count("refresh-rounds", len(scoped_cases))
 
 
@@ -1269,13 +1608,18 @@ def run(ctx):
     prepare_keys()
     jobs = fixed_witnesses() + response_type_coverage(rng, T) + refresh_cells(rng, T) + limit_matrix(rng, T)
     jobs += scope_matrix(rng, T)
+    # (a generator of its own, derived from the seed: the flows drawn from `rng` stay what they were)
+    inst_jobs = instance_jobs(random.Random("c12-instances-%s" % ctx.seed), T, rounds=1 if ctx.quick else 4)
     rows = pairwise_rows(rng, T)
     jobs += concretise(rng, rows, T)
+    jobs += inst_jobs
     if not ctx.quick:
         jobs += thorough_jobs(rng, T)
-    ctx.notes.append("%d flows: %d fixed witnesses, %d limit-matrix / neighbour cells, %d pairwise rows%s" % (
-        len(jobs), len(fixed_witnesses()), len(limit_matrix(random.Random(0), T)), len(rows),
-        "" if ctx.quick else ", plus the sub-products"))
+    ctx.notes.append("%d flows: %d fixed witnesses, %d limit-matrix / neighbour cells, %d pairwise rows, %d provider "
+                     "instances with sequences of %d flows of several clients%s" % (
+        len(jobs) - len(inst_jobs) + sum(len(j["instance"]["sequence"]) for j in inst_jobs), len(fixed_witnesses()),
+        len(limit_matrix(random.Random(0), T)), len(rows), len(inst_jobs),
+        sum(len(j["instance"]["sequence"]) for j in inst_jobs), "" if ctx.quick else ", plus the sub-products"))
     workers = int(os.environ.get("VERIF_C12_WORKERS", "0")) or min(8, max(2, (os.cpu_count() or 4) // 2))
     t0 = time.time()
     recs = execute(jobs, workers)
@@ -1310,6 +1654,15 @@ def replay(ctx, rp):
             case = mm[0]["case"]
         else:
             return run(ctx)
+    if case.get("instance"):
+        # a flow of a sequence: the WHOLE sequence is driven again on one new provider instance
+        recs = run_instance_job({"instance": case["instance"], "kind": case.get("kind", "replay")})
+        for r in recs:
+            print("replayed flow %d of the sequence (client %s): outcome %s; expiry views %s" % (
+                r.get("position", 0) + 1, (r.get("life_cfg") or {}).get("client_id"), json.dumps(r["outcome"]),
+                json.dumps([{k: v for k, v in ev.items() if v is not None} for ev in (r.get("expiry") or [])[:1]])))
+        evaluate(ctx, recs, T)
+        return
     job = {"cell": case["cell"], "scope": case.get("scope") or ["openid"], "claims": case.get("claims"),
            "user": case.get("user") or "diana", "latency": case.get("latency") or 0, "kind": case.get("kind", "replay"),
            "allowed": case.get("allowed"), "refresh_scopes": case.get("refresh_scopes")}
